@@ -417,6 +417,46 @@ async fn sender(cx: AppCx, ep: EpId, key: FlowKey, plan: FlowPlan, s: SendStream
 }
 
 async fn sender_inner(cx: AppCx, ep: EpId, key: FlowKey, plan: FlowPlan, mut s: SendStream) {
+    if let End::ResetAfter { delay_us, code } = plan.end {
+        // the writing loop races a timer; whoever wins, the stream handle stays with us
+        let written = std::sync::Arc::new(std::sync::atomic::AtomicU64::new(0));
+        let outcome = {
+            let work = sender_loop(cx.clone(), ep, key, plan.clone(), &mut s, written.clone());
+            let timer = delay(Duration::from_micros(delay_us));
+            futures::pin_mut!(work);
+            futures::pin_mut!(timer);
+            match futures::future::select(work, timer).await {
+                futures::future::Either::Left((done, _)) => Some(done),
+                futures::future::Either::Right(_) => None,
+            }
+        };
+        match outcome {
+            Some(true) => sender_finish(cx, ep, key, &mut s, written.load(std::sync::atomic::Ordering::Relaxed)).await,
+            Some(false) => {}
+            None => {
+                let _ = s.reset((code as u32).into());
+                cx.op(ep, AppOp::Reset { flow: key, at: written.load(std::sync::atomic::Ordering::Relaxed), code });
+            }
+        }
+        return;
+    }
+    let written = std::sync::Arc::new(std::sync::atomic::AtomicU64::new(0));
+    if sender_loop(cx.clone(), ep, key, plan, &mut s, written.clone()).await {
+        sender_finish(cx, ep, key, &mut s, written.load(std::sync::atomic::Ordering::Relaxed)).await;
+    }
+}
+
+/// the writing loop; returns true when everything was written (the stream is to be finished),
+/// false when it ended by itself (error, or reset at an offset). `written` tracks the number
+/// of bytes the interface has accepted so far.
+async fn sender_loop(
+    cx: AppCx,
+    ep: EpId,
+    key: FlowKey,
+    plan: FlowPlan,
+    s: &mut SendStream,
+    written: std::sync::Arc<std::sync::atomic::AtomicU64>,
+) -> bool {
     let prf = key.prf_key(cx.seed);
     let mut rng = Rng::new(vq_util::mix(prf, 7));
     let mut off = 0u64;
@@ -425,7 +465,7 @@ async fn sender_inner(cx: AppCx, ep: EpId, key: FlowKey, plan: FlowPlan, mut s: 
             if off >= at.min(plan.len) {
                 let _ = s.reset((code as u32).into());
                 cx.op(ep, AppOp::Reset { flow: key, at: off, code });
-                return;
+                return false;
             }
         }
         if off >= plan.len {
@@ -440,17 +480,18 @@ async fn sender_inner(cx: AppCx, ep: EpId, key: FlowKey, plan: FlowPlan, mut s: 
         let n = n.max(1) as usize;
         let data = vq_util::prf_vec(prf, off, n);
         cx.op(ep, AppOp::SendBegin { flow: key, off, len: n });
-        match write_some(&mut s, plan.write_api, data, &mut rng).await {
+        match write_some(s, plan.write_api, data, &mut rng).await {
             Ok(accepted) => {
                 // the interface reports how much it took: exactly these bytes count as
                 // written, the task goes on from there (a short write is legal)
                 cx.op(ep, AppOp::SendOk { flow: key, off, len: accepted });
                 cx.w.lock().unwrap().ctx.summary.count(write_api_name(plan.write_api), 1);
                 off += accepted as u64;
+                written.store(off, std::sync::atomic::Ordering::Relaxed);
             }
             Err(err) => {
                 cx.op(ep, AppOp::SendErr { flow: key, off, err });
-                return;
+                return false;
             }
         }
         if plan.flush && rng.chance(1, 4) {
@@ -463,13 +504,17 @@ async fn sender_inner(cx: AppCx, ep: EpId, key: FlowKey, plan: FlowPlan, mut s: 
                         err: format!("flush:{}", stream_err(&e).0),
                     },
                 );
-                return;
+                return false;
             }
         }
         if plan.gap_every > 0 && rng.chance(1, plan.gap_every as u64) {
             delay(Duration::from_micros(plan.gap_us)).await;
         }
     }
+    true
+}
+
+async fn sender_finish(cx: AppCx, ep: EpId, key: FlowKey, s: &mut SendStream, off: u64) {
     match s.finish() {
         Ok(()) => cx.op(ep, AppOp::Finished { flow: key, total: off }),
         Err(e) => {
